@@ -173,7 +173,9 @@ def make_leaf(rng, n, kind):
         C, dC = make_leaf(rng, k, str(rng.choice(["densepd", "pdiag"])))
         s = -1 if kind.endswith("down") else 1
         if s == -1:
-            U = U * 0.5      # keep the downdate positive definite
+            # keep the downdate positive definite with a margin: largest eigenvalue of A^-1 U C U^T scaled to 0.5
+            lam = np.max(np.abs(np.linalg.eigvals(np.linalg.solve(dA, U @ dC @ U.T))))
+            U = U * np.sqrt(0.5 / max(lam, 1e-12))
         return mm.PositiveDefiniteLowRankUpdateMatrix(mm.DenseRectangularMatrix(U), A, C, sign=s), dA + s * U @ dC @ U.T
     if kind == "pdproduct":
         k = n + int(rng.integers(1, 3))
